@@ -31,7 +31,7 @@ ASSUMPTIONS = [
     'not violated',
     'asynchronous generators are driven to exhaustion (all their gates are eventually released)',
 ]
-REQUIRED = {'rxroot_scenarios': 6, 'scenarios': 1500, 'deliveries': 1500, 'scenarios_two_pending': 500, 'scenarios_plain_while_pending': 300, 'rx_scenarios': 200, 'rxlazy_scenarios': 200, 'rxgen_scenarios': 100, 'generator_tails_completed': 50, 'reassign_scenarios': 10, 'cancellations_swallowed_by_the_coroutine': 30,
+REQUIRED = {'tempupdate_scenarios': 24, 'rxroot_scenarios': 6, 'scenarios': 1500, 'deliveries': 1500, 'scenarios_two_pending': 500, 'scenarios_plain_while_pending': 300, 'rx_scenarios': 200, 'rxlazy_scenarios': 200, 'rxgen_scenarios': 100, 'generator_tails_completed': 50, 'reassign_scenarios': 10, 'cancellations_swallowed_by_the_coroutine': 30,
             'faults_fired': 300}
 DEVMODE = False
 
@@ -163,6 +163,13 @@ def enumerate_scenarios(P):
                     continue        # (it holds no value yet)
                 for derived in (False, True):
                     out.append(dict(target='rxroot', kind=kind, when=when, plain=plain, derived=derived))
+    # a temporary update() whose value is an asynchronous function or generator: leaving the block is the newest assignment
+    # (the previous value comes back), whether the result arrived inside the block or is still pending when it is left
+    for kind in ('coro', 'gen'):
+        for form in ('keywords', 'mapping'):
+            for assigned_before in (False, True):
+                for release in ('inside', 'after', 'never-inside-then-after-a-plain-assignment'):
+                    out.append(dict(target='tempupdate', kind=kind, form=form, assigned_before=assigned_before, release=release))
     # the same histories with coroutines that swallow their cancellation and return a value all the same
     out += [dict(s_, stubborn=True) for s_ in out if s_['target'] == 'param' and 'coro' in s_['ops'] and len(s_['ops']) <= 2 and not s_.get('poison')]
     return out
@@ -194,6 +201,8 @@ def run_case(idx, rng, P, rep):
         res = loop.run_until_complete(run_reassign(sc, rep))
     elif sc['target'] == 'rxroot':
         res = loop.run_until_complete(run_rxroot(sc, rep))
+    elif sc['target'] == 'tempupdate':
+        res = loop.run_until_complete(run_tempupdate(sc, rep))
     else:
         res = loop.run_until_complete(run_rx(sc, rep))
     # cancel whatever is left so that scenarios do not leak into each other
@@ -469,6 +478,51 @@ async def run_reassign(sc, rep):
     exp = ('plain', 'from-watcher') if sc['new'] == 'plain' else ('late', 1)
     if t.x != exp:
         rep.violation('C10/final-value/reassigned-from-watcher', f'final value {t.x!r}, expected {exp!r} (seen: {seen})', case=desc)
+    return True
+
+
+async def run_tempupdate(sc, rep):
+    Tgt = _st['Tgt']
+    loop = asyncio.get_running_loop()
+    t = Tgt()
+    if sc['assigned_before']:
+        t.x = ('plain', 'before')
+    previous = t.x
+    gate = loop.create_future()
+    seen = []
+
+    async def coro():
+        return await gate
+
+    async def gen():
+        yield await gate
+
+    t.param.watch(lambda e: seen.append(e.new), 'x')
+    value = coro if sc['kind'] == 'coro' else gen
+    inside = None
+    with (t.param.update(x=value) if sc['form'] == 'keywords' else t.param.update({'x': value})):
+        await turns()
+        if sc['release'] == 'inside':
+            gate.set_result(('temporary', 1))
+            await turns(8)
+            inside = t.x
+    n_exit = len(seen)
+    expect = previous
+    if sc['release'] == 'never-inside-then-after-a-plain-assignment':
+        t.x = expect = ('plain', 'after')
+    await turns()
+    if not gate.done():
+        gate.set_result(('temporary', 1))
+    await turns(8)
+    rep.count('tempupdate_scenarios')
+    desc = dict(sc)
+    if sc['release'] == 'inside' and inside != ('temporary', 1):
+        rep.violation('C10/temporary-update/result-not-shown-inside-block', f'inside the block, after the result arrived, x is {inside!r}', case=desc)
+    late = [v for v in seen[n_exit:] if v == ('temporary', 1)]
+    if late or t.x != expect:
+        rep.violation('C10/stale-result-applied-after-newer-assignment/temporary-update-left',
+                      f'with update(x=<async {sc["kind"]}>) [{sc["form"]}], block left {"after" if sc["release"] == "inside" else "before"} the result '
+                      f'arrived: x ends as {t.x!r}, expected {expect!r}; announced after the block: {seen[n_exit:]}', case=desc)
     return True
 
 
